@@ -66,4 +66,14 @@ theorem runT_total_noBar (src : Bytes) (e : Panic) (pts : List PT) (hs : PTsSpec
   · exact absurd h (runT_noLoop hl src)
   · exact .inr h
 
+/-- the same with the list shape of the final store: children of a List are ListItems (with offset ≥ 0), a node whose
+    parent is a List is a ListItem -/
+theorem runT_total_noBar_kids (src : Bytes) (e : Panic) (pts : List PT) (hs : PTsSpec src e pts) (hl : PTsOK pts)
+    (hsrc : L.B.NoSetextBar src) :
+    (∃ s, runT pts src = .ok s ∧ NodesOK src s ∧ KidsOK s) ∨ runT pts src = .error e := by
+  rcases L.B.runLK (lsp_all src) hs hsrc with h | h | h
+  · exact .inl h
+  · exact absurd h (runT_noLoop hl src)
+  · exact .inr h
+
 end GM.Blocks.T
